@@ -660,3 +660,11 @@ PLANS["C12"]["quick"] = PLANS["C12"]["quick"] + [lp("T-k1", "prod", "T", "k1", w
 PLANS["C04"]["quick"] = PLANS["C04"]["quick"] + [fam("warm-allbases-Sbq", "prodl1", "basis", {"fam": "Sbq", "files": 0, "verify": 0, "warm": 1}, weight=2, crash_props=["C17", "C04"])]
 PLANS["C04"]["rule"] = PLANS["C04"]["rule"].replace("must return the reference truth;", "must return the reference truth, and so must mpq_QSopt_primal / mpq_QSopt_dual after mpq_QSload_basis of the same basis;", 1)
 _dl("C04", quick=900)
+
+# C18 on the solve paths of the exact driver (allocation balance around build ; QSexact_solver ; free)
+_LEAK_T = lp("T-san-leak", "san", "T", "default", weight=2, crash_props=["C17", "C18"], opts={"fam": "T", "cfg": "default", "tscale": 30, "leak": 1})
+_LEAK_S = lp("S0q1-sanl1-leak", "sanl1", "S0q1", "default", weight=1, crash_props=["C17", "C18"], opts={"fam": "S0q1", "cfg": "default", "leak": 1})
+PLANS["C18"]["quick"] = PLANS["C18"]["quick"] + [_LEAK_T, _LEAK_S]
+PLANS["C18"]["thorough"] = PLANS["C18"]["thorough"] + [_LEAK_T, _LEAK_S, lp("Sbq-sanl1-leak", "sanl1", "Sbq", "default", weight=1, crash_props=["C17", "C18"], opts={"fam": "Sbq", "cfg": "default", "leak": 1})]
+PLANS["C18"]["rule"] += "; family lp with leak=1: for every LP of T and S0q1 the allocated-byte counter before build ; QSexact_solver (dual and primal start) ; free and after it must agree (second round)"
+PLANS["C18"]["evidence"] = {"states": sorted(set(PLANS["C18"]["evidence"]["states"] + ["instances"])), "transitions": sorted(set(PLANS["C18"]["evidence"]["transitions"] + ["leak_probes"])), "nontrivial": PLANS["C18"]["evidence"]["nontrivial"]}
